@@ -146,7 +146,7 @@ pub fn body_op(p: Profile, as_client: bool, v5: bool, hostile: BoxedStrategy<Op>
     if p.ack > 0 {
         alts.push((
             w(p.ack),
-            (proptest::sample::select(ALL_ACKS.to_vec()), s.clone(), prop_oneof![8 => Just(0u8), 2 => 1u8..9, 1 => 16u8..64]).prop_map(|(kind, sel, rc)| Op::Ack { kind, sel, rc }).boxed(),
+            (proptest::sample::select(ALL_ACKS.to_vec()), s.clone(), prop_oneof![8 => Just(0u8), 2 => 1u8..9, (if p.mps_near { 5 } else { 1 }) => 16u8..64]).prop_map(|(kind, sel, rc)| Op::Ack { kind, sel, rc }).boxed(),
         ));
     }
     if p.peer_ack > 0 {
@@ -265,8 +265,10 @@ fn segment(p: Profile, cfg: ConnCfg, as_client: bool, hostile: BoxedStrategy<Op>
         end,
         0u8..4,
         0u16..64,
+        // hostile handshake: a mutated copy of the peer's CONNECT / CONNACK arrives before the real one
+        if p.hostile > 0 { proptest::option::weighted(0.3, proptest::collection::vec(crate::checks::c05::mut_strategy(), 1..3)).boxed() } else { Just(None).boxed() },
     )
-        .prop_map(move |(pre, mut ca, mut ka, fail, body, end, chunk, small)| {
+        .prop_map(move |(pre, mut ca, mut ka, fail, body, end, chunk, small, hostile_hs)| {
             if p.alias_heavy && v5 && small % 4 != 3 {
                 // the Topic Alias Maximum that applies to what this object sends is announced by the peer
                 let tam = Some([1u16, 2, 5, 2][(small % 4) as usize]);
@@ -329,10 +331,17 @@ fn segment(p: Profile, cfg: ConnCfg, as_client: bool, hostile: BoxedStrategy<Op>
             if chunk == 1 {
                 ops.push(Op::Chunk(2));
             }
+            let hv = if v5 { V::V5 } else { V::V311 };
             if as_client {
                 ops.push(Op::Connect(ca));
+                if let Some(m) = &hostile_hs {
+                    ops.push(Op::PeerRaw(crate::checks::c05::mutate_packet(&connack_ap(hv, &ka), cfg.idw, m)));
+                }
                 ops.push(Op::PeerConnack(ka));
             } else {
+                if let Some(m) = &hostile_hs {
+                    ops.push(Op::PeerRaw(crate::checks::c05::mutate_packet(&connect_ap(hv, &ca), cfg.idw, m)));
+                }
                 ops.push(Op::PeerConnect(ca));
                 ops.push(Op::Connack(ka));
             }
